@@ -23,6 +23,9 @@ def _embs(ctx):
         dict(name="coarse", unit_us=1_000_000, base=ctx.base, starts=range(0, 6), durs=(0, 1, 2, 3), n=2, wr=range(-1, 8), shifts=[(0, 0)], limits=(-1, 0, 1, 2, 5)),
         dict(name="fine", unit_us=1_000, base=ctx.base, starts=range(0, 4), durs=(0, 1, 2), n=2, wr=range(-3, 7), shifts=[(0, 0), (1, 999), (500, 500), (999, 1)], limits=(-1, 1)),
         dict(name="day", unit_us=6 * 3600 * 1_000_000, base=day_base, starts=range(0, 5), durs=(0, 1, 4), n=2, wr=range(-1, 7), shifts=[(0, 0)], limits=(-1, 1)),
+        # 1 ms lattice straddling a whole-second boundary (.996 .. 1.004 s): window ends in the last
+        # millisecond of a second exercise the carry of the end round-up (a seeded change dropped it)
+        dict(name="carry", unit_us=1_000, base=ctx.base + timedelta(milliseconds=996), starts=range(0, 5), durs=(0, 1, 3), n=2, wr=range(-2, 8), shifts=[(0, 0), (500, 999)], limits=(-1, 1)),
     ]
     if ctx.thorough:
         q = [
@@ -30,12 +33,14 @@ def _embs(ctx):
             dict(name="fine", unit_us=1_000, base=ctx.base, starts=range(0, 4), durs=(0, 1, 2), n=3, wr=range(-3, 7), shifts=[(0, 0), (1, 999), (500, 500), (999, 1), (999, 999), (1, 1)], limits=(-1, 1, 2)),
             dict(name="fine3", unit_us=3_000, base=ctx.base, starts=range(0, 4), durs=(0, 1, 2), n=2, wr=range(-2, 7), shifts=[(0, 0), (1, 999), (1500, 2500), (2999, 1)], limits=(-1, 1)),
             dict(name="day", unit_us=6 * 3600 * 1_000_000, base=day_base, starts=range(0, 5), durs=(0, 1, 3, 4), n=3, wr=range(-1, 7), shifts=[(0, 0)], limits=(-1, 1, 2)),
+            dict(name="carry", unit_us=1_000, base=ctx.base + timedelta(milliseconds=996), starts=range(0, 6), durs=(0, 1, 3), n=3, wr=range(-2, 9), shifts=[(0, 0), (500, 999), (999, 1)], limits=(-1, 1, 2)),
+            dict(name="carry-minute", unit_us=1_000, base=ctx.base.replace(second=59) + timedelta(milliseconds=997), starts=range(0, 4), durs=(0, 2), n=2, wr=range(-1, 6), shifts=[(0, 0), (999, 999)], limits=(-1, 1)),
         ]
     return q
 
 
 BOUNDS = {
-    "quick": "contents: multisets of <=2 events; coarse(1 s): starts 0..5 x durs {0,1,2,3}, windows over -1..7 U {open}, limits {-1,0,1,2,5}; fine(1 ms): starts 0..3 x durs {0,1,2}, windows -3..6 with 4 sub-ms edge shifts; day(6 h from 18:00): starts 0..4 x durs {0,6h,24h}; every window also via get_eventcount; window arguments cycle through UTC/+05:30/-08:00",
+    "quick": "contents: multisets of <=2 events; coarse(1 s): starts 0..5 x durs {0,1,2,3}, windows over -1..7 U {open}, limits {-1,0,1,2,5}; fine(1 ms): starts 0..3 x durs {0,1,2}, windows -3..6 with 4 sub-ms edge shifts; day(6 h from 18:00): starts 0..4 x durs {0,6h,24h}; carry(1 ms lattice from xx.996 s across the second boundary); every window also via get_eventcount; window arguments cycle through UTC/+05:30/-08:00",
     "thorough": "as quick with multisets of <=3 events, more limits and shifts, and a 3 ms embedding",
 }
 RULE = (
@@ -155,8 +160,13 @@ def run_content(ds, backend, embd, content, u, bid="w"):
         stored[i] = (S.us_of(ee.timestamp), S.us_of(ee.timestamp) + S.dus_of(ee.duration), S.canon_data(ee.data))
     base = {t[0]: (t[1], t[1] + t[2], t[3]) for t in S.dump_bucket(ds, bid)}
     if base != stored or len(stored) != len(content):
-        # storage fidelity is C01/C02's subject; a wrong baseline would poison this oracle
-        u.hist["baseline_mismatch_skipped"] += 1
+        # an unbounded read (no start, no end, no limit) is a window read too: it must return
+        # exactly what was inserted.  (An earlier version skipped such contents as "C01/C02's
+        # subject" and then failed its own self-check instead of reporting a seeded stale
+        # read-side cache.)  The windowed oracle below needs a sane baseline, so stop here.
+        u.hist["baseline_mismatch"] += 1
+        case = {"backend": backend, "emb": embd["name"], "unit_us": embd["unit_us"], "base": embd["base"].isoformat(), "content": [list(c) for c in content], "window": [None, None], "shift_us": [0, 0], "tz": 0, "limit": -1, "op": "get"}
+        u.violation(f"{backend}:get:unbounded-read-differs-from-inserted", f"{backend}/{embd['name']} content {list(content)} inserted into a fresh bucket: get(-1) returned {sorted(base.values())} expected {sorted(stored.values())}", case, size=len(content) * 1000)
         return
     wi = 0
     for a, bb in _windows(embd):
@@ -242,7 +252,6 @@ def run(ctx):
     for r in ctx.pmap(_unit, units):
         agg.add(r)
     agg.extra["space"] = sizes
-    ctx.selfcheck(agg.hist.get("baseline_mismatch_skipped", 0) == 0 or bool(agg.violations), f"{agg.hist.get('baseline_mismatch_skipped')} contents skipped because the store did not hold what was inserted (see C01/C02)")
     ctx.selfcheck(agg.nontrivial > 0, "no non-trivial (content, window) case")
     return agg
 
